@@ -45,7 +45,7 @@ KEYS = {
     "ll": ("list_list_int", [[0]]),
     "d": ("dict_str_int", {"z": 0}),
 }
-METHODS = ["parse_args", "parse_args", "parse_args_envT", "parse_args_envF", "parse_env", "parse_env_os", "parse_string", "parse_string_envT", "parse_object", "parse_object_envT"]
+METHODS = ["parse_args", "parse_args", "parse_args_envT", "parse_args_envF", "parse_env", "parse_env_os", "parse_string", "parse_string_envT", "parse_object", "parse_object_envT", "parse_args_nodef", "parse_args_nodef_envT", "parse_object_nodef"]
 
 
 def rnd_val(r, t):
@@ -317,11 +317,15 @@ def env_on(sc):
         "parse_string_envT": True,
         "parse_object": de,
         "parse_object_envT": True,
+        "parse_args_nodef": de,
+        "parse_args_nodef_envT": True,
+        "parse_object_nodef": de,
     }[sc["method"]]
 
 
 def fold(sc, root, cwd, variant=None, listing=None):
-    st = {k: copy.deepcopy(d) for k, (t, d) in KEYS.items()}
+    nodef = "_nodef" in sc["method"]  # defaults=False: neither code defaults nor default config files
+    st = {k: (None if nodef else copy.deepcopy(d)) for k, (t, d) in KEYS.items()}
     touched = {}
 
     def app(src, origin):
@@ -360,7 +364,7 @@ def fold(sc, root, cwd, variant=None, listing=None):
         dsrc = uniq
     if variant == "dcf-patterns-reversed":
         dsrc = list(reversed(dsrc))
-    if variant != "dcf-all-dropped":
+    if variant != "dcf-all-dropped" and not nodef:
         for s in dsrc:
             app(s, "dcf")
     m = sc["method"]
@@ -417,7 +421,9 @@ def run_method(p, sc):
         return p.parse_object(copy.deepcopy(sc["direct"]))
     if m == "parse_object_envT":
         return p.parse_object(copy.deepcopy(sc["direct"]), env=True)
-    kw = {"parse_args": {}, "parse_args_envT": {"env": True}, "parse_args_envF": {"env": False}}[m]
+    if m == "parse_object_nodef":
+        return p.parse_object(copy.deepcopy(sc["direct"]), defaults=False)
+    kw = {"parse_args": {}, "parse_args_envT": {"env": True}, "parse_args_envF": {"env": False}, "parse_args_nodef": {"defaults": False}, "parse_args_nodef_envT": {"defaults": False, "env": True}}[m]
     return p.parse_args(list(sc["argv"]), **kw)
 
 
